@@ -154,6 +154,19 @@ func (sc *specCtx) lookupLocal(name string) (Value, bool) {
 	return Value{}, false
 }
 
+// ghostIndex: the key under which ghost state is kept for a value: its reference; for an interface value
+// that boxes a pointer (an *os.File passed as io.Writer, a *bufio.Reader as io.Reader), the pointer.
+func (x *Exec) ghostIndex(v Value) *Term {
+	if len(v.C) == 1 && v.T != nil {
+		if _, isIface := v.T.Underlying().(*types.Interface); isIface {
+			if pv, ok := x.boxed[v.C[0]]; ok && len(pv.C) == 1 {
+				return pv.C[0]
+			}
+		}
+	}
+	return v.C[0]
+}
+
 func (sc *specCtx) uncaptured(name string) (Value, bool) {
 	x := sc.x
 	fn := x.Fn
@@ -882,7 +895,7 @@ func (sc *specCtx) call(e *ast.CallExpr) Value {
 			sc.errf(e, "ghost %s takes %d arguments", name, g.NArgs)
 		}
 		for i := range e.Args {
-			t = Select(t, sc.eval(arg(i)).C[0])
+			t = Select(t, x.ghostIndex(sc.eval(arg(i))))
 		}
 		if g.NonNeg {
 			x.assumeTrue(Le(Num(0), t))
